@@ -514,6 +514,10 @@ def main(tier, replay=None):
               2**N - 2**(N - 64), 2**64 - 1 if N > 64 else 255, 2**64 if N > 64 else 256, 2**(N - 64) if N > 64 else 2**32, 16**(N // 4 - 1), 16**(N // 4 - 1) - 1]
         sb = [0, 1, -1, 9, -9, 10, -10, 2**(N - 1) - 1, 2**(N - 1) - 2, -2**(N - 1), -2**(N - 1) + 1, 10**(Ds - 1), -10**(Ds - 1), 10**(Ds - 1) - 1,
               -(10**(Ds - 1) - 1), 2**63 if N > 64 else 2**31, -(2**64) if N > 64 else -(2**32), -(2**(N - 2)), 2**(N - 2)]
+        if not big and K >= 11:     # the extracted model needs 0.2 s (K=11) / 0.9 s (K=12) per value: quick keeps the sharpest ones
+            keep = 7 if K == 11 else 4
+            ub = [2**N - 1, 10**(D - 1), 10**(D - 1) - 1, 2**(N - 1), 0, 2**N - 2**(N - 64), 16**(N // 4 - 1) - 1][:keep]
+            sb = [-2**(N - 1), 2**(N - 1) - 1, -10**(Ds - 1), 10**(Ds - 1) - 1, -1, -2**(N - 1) + 1, -(10**(Ds - 1) - 1)][:keep]
         for hexm in (0, 1):
             for (sg, vals) in (("ru", ub), ("ri", sb)):
                 for a in vals:
@@ -522,7 +526,7 @@ def main(tier, replay=None):
                         K=K, hex=hexm, a=a, tail=tail, sg=sg)
     for K in (6, 7, 8, 9, 12):
         N = 1 << K
-        cnt = (26 if K < 12 else 8) * S
+        cnt = (26 if K < 12 else 4) * S
         for i in range(cnt):
             for sg in ("ru", "ri"):
                 hexm = 1 if i % 3 == 2 else 0
